@@ -145,7 +145,7 @@ func (m *Metadata) Get(key string) ([]byte, bool) {
 func readField(r io.Reader) ([]byte, error) {
 	var lenb [4]byte
 
-	_, err := r.Read(lenb[:])
+	_, err := io.ReadFull(r, lenb[:])
 	if err != nil {
 		return nil, err
 	}
